@@ -61,6 +61,16 @@ Check (C13_responder_once :
     forall e o tg irid p len tag,
       In (e, o, tg) steps -> In (OReq irid p len tag) o ->
       exists k c rest, e = EInReq k len tag /\ tg = Some c /\ o = OReq irid p len tag :: rest /\ has_req rest = false).
+Check (C13_channel_nothing_lost :
+  forall (cap : nat) (o : list out) (ms : list rmove),
+    let st := relay_run cap o ms in
+    rl_delivered st ++ rl_queue st ++ rl_pending st = o /\ (length (rl_queue st) <= cap)%nat).
+Check (C13_dial_refused_one_failure :
+  forall (s : pst) (p len tag : N) fb (ok : bool) (sid : N),
+    memN p (peers s) = false ->
+    snd (h_send s p true len tag fb ok false sid) = [OSent (next_rid s); OFail (next_rid s) E_DIAL_IMMEDIATE] /\
+    dials (fst (h_send s p true len tag fb ok false sid)) = dials s /\
+    active (fst (h_send s p true len tag fb ok false sid)) = active s).
 Check (C13_unrepaired_refuted :
   exists s o,
     (let '(s1, o1) := h_send_unrepaired init_pst 0 true 3 10 false true 0 in
